@@ -279,6 +279,8 @@ class FakeStream:
         return data
 
     async def close(self):
+        if not self.closed:
+            self.net.log.append(("sclose", self.net.loop.time(), self.local, self.remote))      # from now on every write of either end raises
         self.closed = True
         self.inbox.closed = True
         if self.inbox.ev: self.inbox.ev.set()
